@@ -181,6 +181,10 @@ def run(res, tier, only_case=None):
     hl = len(ht_.build())
     scen.append(("C", "C %s %s" % (vlib.hexs(fsrc), vlib.hexs(ftgt[:hl])), None, True))
     scen.append(("C", "C %s %s" % (vlib.hexs(fsrc[:-5]), vlib.hexs(ftgt[:hl + 4])), None, False))
+    # the same source chunk wanted several times by the target (a repeated copy must be checked like the first one)
+    fsrc2, _ = zckfmt.build_file([pool[3], pool[1], pool[2]], ht=1, cht=3)
+    ftgt2, ht2_ = zckfmt.build_file([pool[3], pool[1], pool[3], b"absent", pool[3]], ht=1, cht=3)
+    scen.append(("C", "C %s %s" % (vlib.hexs(fsrc2), vlib.hexs(ftgt2[:len(ht2_.build())])), None, True))
     model_f, scan_votes = None, []
     try:
         vlib.coq_make(["Extract/Extract_C12F.vo"])
@@ -360,7 +364,9 @@ def tool_part(res, tier, rng, wd):
     def runp(cmd, fault=None, cwd=tdir):
         e = dict(e0)
         if fault:
-            e["ZH_FAULT"] = fault
+            e["ZH_FAULT"] = fault.split("+")[0]
+            if "+" in fault:
+                e["ZH_FAULT2"] = fault.split("+")[1]
         try:
             p = subprocess.run(cmd, cwd=cwd, env=e, stdout=subprocess.PIPE, stderr=subprocess.PIPE, timeout=60)
             return p.returncode, p.stdout
@@ -405,10 +411,15 @@ def tool_part(res, tier, rng, wd):
         for mode in ([], ["--header"]):
             for op, kmax in (("read", 14), ("write", 14), ("lseek", 4)):
                 for k in range(1, kmax + 1):
-                    for kind, sh in (("eio", 1), ("short", 3), ("eintr", 1), ("enospc", 1)):
+                    kinds = [("eio", 1), ("short", 3), ("eintr", 1), ("enospc", 1)]
+                    if op == "write":
+                        # a short count followed by an error on the very next write (the retry of a helper that loops):
+                        # the bytes of the failed remainder are missing although some were written
+                        kinds += [("short", "1+write:%d:eio:1" % (k + 1)), ("short", "1000+write:%d:enospc:1" % (k + 1))]
+                    for kind, sh in kinds:
                         if op == "lseek" and kind != "eio":
                             continue
-                        fault = "%s:%d:%s:%d" % (op, k, kind, sh)
+                        fault = "%s:%d:%s:%s" % (op, k, kind, sh)
                         for pth in (outp, outp + ".zhr"):
                             if os.path.exists(pth):
                                 os.unlink(pth)
